@@ -50,7 +50,7 @@ THEOREMS = ['C05_pot_transform_compl_untouched', 'C05_pot_transform_den',
             'C05_fill_phase_located', 'C05_outside_container_nothing',
             'C05_located_enumerated', 'C05_located_unique',
             'C05_descents_distinct', 'C05_by_universe_lists',
-            'C05_inline_cells_den']
+            'C05_inline_cells_den', 'C05_trcl_phase_den']
 
 
 def tie_case_summary(case):
